@@ -21,7 +21,7 @@ RP_IDS = ["example.com", "Login.Example.org", "b\u00fccher.example", "localhost"
 
 
 def register(fmt, choice, idx, **kw):
-    b = _reg.build(fmt, choice, (), cred_id=bytes([idx]) * 20, **kw)
+    b = _reg.build(fmt, choice, (), cred_id=kw.pop("cred_id", bytes([idx]) * 20), **kw)
     if b is None:
         return None
     req, r = b
@@ -36,7 +36,7 @@ def work(tasks, idx):
     tie = corr.Tie(res, drv, "both_accept")
     for t in tasks:
         if t[0] == "chain":
-            _, fmt, choice, n = t
+            fmt, choice, n = t[1:4]
             # every other chain: the envelope's rawId differs from the attested credential id (nothing compares them at
             # registration); what is returned and stored must be the id the authenticator will present later
             kw = {"envelope_id": bytes(range(40, 56))} if (n + len(fmt)) % 2 and fmt != "fido-u2f" else {}
@@ -45,6 +45,13 @@ def work(tasks, idx):
             rp_id = RP_IDS[(n + len(choice[0]) + len(fmt)) % len(RP_IDS)]
             kw["rp_id"] = rp_id
             kw["origin"] = "https://" + rp_id
+            if len(t) > 4:
+                # the credential id is whatever the authenticator chose, 1 to 1023 bytes: what registers with an id of some
+                # length must authenticate with it (its text form in the envelope is a third longer than the bytes)
+                import hashlib
+                kw["cred_id"] = hashlib.shake_256(b"C08-id-%d" % t[4]).digest(t[4])
+                kw.pop("envelope_id", None)
+                res.count("chain:id-length")
             out = register(fmt, choice, 1, **kw)
             if out is None:
                 continue
@@ -156,6 +163,15 @@ def run(ctx, res):
         for ch in _reg.cred_choices(fmt):
             creds.append((fmt, ch))
             tasks.append(("chain", fmt, ch, 3 if ctx.quick() else 8))
+    # credential-id lengths: every boundary a length limit could sit at, in bytes or in characters of the text form
+    ID_LENGTHS = [1, 2, 15, 16, 17, 31, 33, 48, 63, 64, 65, 96, 127, 128, 129, 191, 192, 193, 255, 256, 257, 341, 342, 383, 384,
+                  385, 511, 512, 513, 682, 683, 700, 766, 767, 768, 769, 900, 1000, 1021, 1022, 1023]
+    id_creds = [("none", ("p256", 0, core.ES256)), ("packed-self", ("ed25519", 0, core.EDDSA)), ("packed", ("rsa", 0, core.RS256)),
+                ("none", ("p521", 0, core.ES512))]
+    for i, L in enumerate(ID_LENGTHS if ctx.quick() else range(1, 1024)):
+        f, ch = id_creds[i % len(id_creds)]
+        if ch in _reg.cred_choices(f):
+            tasks.append(("chain", f, ch, 1, L))
     n = 10 if ctx.quick() else 40
     pool = [(f, ch, i) for i, (f, ch) in enumerate(rng.sample(creds, min(n, len(creds))))]
     pairs = [(p, q) for p in pool for q in pool if p != q and (p[1][0], p[1][1]) != (q[1][0], q[1][1])]
